@@ -478,6 +478,11 @@ def run_part_c(check: core.Check, quick: bool) -> None:
         "code to its fixpoint and judged by FixLayoutTrace.tla (range within / covering the statement's CPython extent, "
         "parses, AST = AST of the intended program, diagnostic gone, loop clean; ignore insertion: AST unchanged and "
         "the inserted line is a comment token); the corrupted-observation self-tests prove each clause is live")
+    check.cov["rule"] = str(check.cov.get("rule", "")) + (
+        f" | part C (FixLayout.tla): {len(obs)} files = 7 fix kinds x 24 statement layouts x 9 block contexts x 8 'before' x "
+        f"12 'after' menus x 3 end-of-file positions ({'product slices emitA-D' if quick else 'the full product'}), "
+        "one fix-apply-recheck run each to the fixpoint; exhaustive model check of the same product "
+        f"({res.distinct} states, {'3 kinds - one per fix mode' if quick else 'all kinds'})")
     check.assumptions.append(
         "FixLayout: indentation in units of four blanks, no tabs / form feeds; comments inside the rewritten statement "
         "are lost by the decompiler and not counted as a change; asynq-specific fix producers (task_needs_yield, "
